@@ -74,3 +74,179 @@ def update_all(ds):
     for d in ds:
         d["n"] = d.get("n", 0) + 1
     return ds
+
+
+def last(xs):
+    r = 0
+    for x in xs:
+        r = x
+    return r
+
+
+def app(a, b):
+    a.append(1)
+    return len(b)
+
+
+def fdiv(a, b):
+    return a // b
+
+
+def fmod(a, b):
+    return a % b
+
+
+def either(a, b):
+    return a or b
+
+
+def chain(a, b, c):
+    return a < b < c
+
+
+def tail(xs):
+    return xs[-1]
+
+
+def rest(xs):
+    return xs[1:]
+
+
+def alias_row(rows):
+    row = rows[0]
+    row["k"] = 1
+    return rows[0]["k"]
+
+
+def alias_list(a):
+    b = a
+    b.append(7)
+    return len(a)
+
+
+def find_first(xs, v):
+    for i, x in enumerate(xs):
+        if x == v:
+            return i
+    return -1
+
+
+def skip_neg(xs):
+    t = 0
+    for x in xs:
+        if x < 0:
+            continue
+        if x > 100:
+            break
+        t += 1
+    return t
+
+
+def guarded(d, k):
+    try:
+        return d[k]
+    except KeyError:
+        return -1
+
+
+def cleanup(d, k):
+    try:
+        v = d[k]
+    finally:
+        d["seen"] = 1
+    return v
+
+
+def popdefault(d, k):
+    return d.pop(k, 0)
+
+
+def setdef(d, k):
+    d.setdefault(k, 5)
+    return d[k]
+
+
+def delete(d, k):
+    del d[k]
+    return k in d
+
+
+def strjoin(a, b):
+    return a + "." + b
+
+
+def ternary(a):
+    return 1 if a else 2
+
+
+def inc(d, k):
+    d[k] = d.get(k, 0) + 1
+
+
+def twice(d, e, k):
+    inc(d, k)
+    inc(e, k)
+    return d[k]
+
+
+def risky(x):
+    if x < 0:
+        raise ValueError("negative")
+    return x
+
+
+def caller(x):
+    try:
+        return risky(x)
+    except ValueError:
+        return 0
+
+
+def ptotal(xs):
+    return sum(x for x in xs)
+
+
+def same_total(a):
+    t1 = ptotal(a)
+    a.append(5)
+    t2 = ptotal(a)
+    return t2 - t1
+
+
+class Box:
+    def __init__(self, v):
+        self.v = v
+
+    def getv(self):
+        return self.v
+
+
+def bump(b):
+    x = b.getv()
+    b.v = b.v + 1
+    y = b.getv()
+    return y - x
+
+
+def dget(d, k):
+    return d.get(k, 0)
+
+
+def bump_dict(d, k):
+    x = dget(d, k)
+    d[k] = x + 1
+    y = dget(d, k)
+    return y - x
+
+
+def fill(n):
+    out = []
+    for i in range(n):
+        out.append(i)
+    return out
+
+
+def nested_old(rows):
+    for r in rows:
+        r["c"] = r.get("c", 0) + 1
+    return len(rows)
